@@ -26,7 +26,8 @@ type c08Handler struct {
 }
 
 // output shape of the handler function for one message
-//   none | one | two | self (returns the consumed message) | twice (one fresh object twice) | err (error with a message) | mw (no-publisher handler: middleware adds an output)
+//
+//	none | one | two | self (returns the consumed message) | twice (one fresh object twice) | err (error with a message) | mw (no-publisher handler: middleware adds an output)
 var c08Shapes = []string{"none", "one", "two", "self", "twice", "err"}
 
 func c08Options() []c08Handler {
@@ -95,7 +96,7 @@ func c08Run(r *tr.Run, hs []c08Handler, rng *rand.Rand) {
 	subs := map[string]*scripted.Sub{"sA": scripted.NewSub("sA"), "sB": scripted.NewSub("sB")}
 	pubs := map[string]*scripted.Pub{"pA": scripted.NewPub("pA"), "pB": scripted.NewPub("pB")}
 	var mu sync.Mutex
-	var published []*message.Message // fresh output objects that went through a publisher (they carry a handler context)
+	var published []*message.Message                         // fresh output objects that went through a publisher (they carry a handler context)
 	shared := message.NewMessage("shared", []byte("shared")) // one object returned by several handlers one after the other
 	shape := map[string]string{}
 	consumed := map[string]*message.Message{}
